@@ -252,3 +252,168 @@ def build_jobs(prop, tier):
         fl = {"serde": True}
         J.append(ReaderJob("c19", plain_suites("fasta", tier, fl)[2:4] + plain_suites("fastq", tier, fl)[2:4] + history_suites("fasta", tier, fl, serde=True)[1:] + history_suites("fastq", tier, fl, serde=True)))
     return J
+
+
+# ------------------------------------------------------------------------------------------
+# parallel module
+
+import random
+import re
+import subprocess
+
+PAR_INV_PROPS = {
+    "Paired": ["C07"], "NoDup": ["C07"], "AllDelivered": ["C07"], "InOrder1": ["C07"], "RecordsPaired": ["C07"],
+    "RecordsInOrder": ["C07"], "SetsAreWhatReaderProduced": ["C07"],
+    "ErrOnce": ["C15"], "ErrNoLater": ["C15"], "ErrDrain": ["C15"], "InitFailuresSurface": ["C15"],
+    "ClosedOnlyAfterInitFailure": ["C15"], "PerRecordErrorsReturned": ["C15"],
+    "BoundedSets": ["C16"], "ReaderAhead": ["C16"], "RecycledOnly": ["C16"],
+    "Termination": ["C08"], "Temporal properties were violated.": ["C08"], "Deadlock reached.": ["C08"],
+}
+
+
+def par_configs(tier, rnd_):
+    cfgs = []
+    n = q(tier, 70, 500)
+    for _ in range(n):
+        ns = rnd_.choice([0, 1, 2, 3, 4, 5, 6, 9, 14])
+        c = {"NW": rnd_.randint(1, 4), "Q": rnd_.randint(1, 4), "NSets": ns, "ErrAt": 0, "StopAfter": 99, "RInitFail": False, "DInitFailAt": 0}
+        r = rnd_.random()
+        if r < 0.25:
+            c["ErrAt"] = rnd_.randint(1, ns + 1)
+        elif r < 0.45:
+            c["StopAfter"] = rnd_.randint(0, ns + 1)
+        elif r < 0.52:
+            c["RInitFail"] = True
+        elif r < 0.62:
+            c["DInitFailAt"] = rnd_.randint(1, c["Q"] + 2)
+        elif r < 0.70:
+            c["ErrAt"] = rnd_.randint(1, ns + 1)
+            c["StopAfter"] = rnd_.randint(0, ns + 1)
+        cfgs.append(c)
+    # long inputs: the number of data sets must not depend on the input length
+    for ns in q(tier, [60, 300], [60, 300, 2000]):
+        cfgs.append({"NW": rnd_.randint(1, 4), "Q": rnd_.randint(1, 3), "NSets": ns, "ErrAt": 0, "StopAfter": 9999, "RInitFail": False, "DInitFailAt": 0})
+    return cfgs
+
+
+class ParJob:
+    """thread-pool functions: record-mode runs, steered schedules from TLC, public entry points"""
+
+    def __init__(self, name, tier):
+        self.name, self.tier = name, tier
+
+    def _validate(self, spec, files, wd, label):
+        tv = vlib.trace_validate(spec, files, wd, timeout=1500, xmx="2g")
+        notes = []
+        for f in files:
+            out = f + ".out"
+            if not os.path.exists(out):
+                continue
+            for line in open(out, errors="replace"):
+                m = re.search(r'<<"CONFORMANCE", "(.*)">>\s*$', line)
+                if m:
+                    j = json.loads(vlib.unescape_tla(m.group(1)))
+                    if j["unexplained"]:
+                        notes.append({"file": f, "unexplained_runs": j["unexplained"], "runs": j["runs"]})
+        return tv, notes
+
+    def run(self, wd):
+        t0 = time.time()
+        tier = self.tier
+        rnd_ = random.Random(vlib.seed())
+        mism, notes, samples = [], [], []
+        states = traces = events = 0
+        hang = False
+        # 1. record mode
+        cfgs = par_configs(tier, rnd_)
+        files = []
+        chunk = 60
+        for i in range(0, len(cfgs), chunk):
+            cp = os.path.join(wd, "par_cfgs_%d.json" % i)
+            json.dump(cfgs[i:i + chunk], open(cp, "w"))
+            op = os.path.join(wd, "par_rec_%d.json" % i)
+            st = vlib.run_harness(["par-record", "--cfgs", cp, "--out", op, "--seed", str(vlib.seed() + i), "--reps", str(q(tier, 2, 4))])
+            traces += st.get("runs", 0)
+            hang = hang or st.get("hang", False)
+            files.append(op)
+        log("[drive] %s/record: %d runs" % (self.name, traces))
+        # 2. schedules generated by TLC from the model, forced onto the real code
+        nsched = q(tier, 300, 4000)
+        sraw = os.path.join(wd, "sched.raw")
+        cmd = vlib.java_cmd("2g", serial=False) + ["-workers", "1", "-seed", str(vlib.seed()), "-simulate", "num=%d" % nsched, "-depth", "300",
+                                                   "-metadir", os.path.join(wd, "mdsched"), "-noGenerateSpecTE", "-config", "SchedParallel.cfg", "SchedParallel.tla"]
+        env = dict(os.environ)
+        env.pop("JAVA_TOOL_OPTIONS", None)
+        p = subprocess.run(cmd, cwd=vlib.SPEC, env=env, stdout=subprocess.PIPE, stderr=subprocess.STDOUT, text=True, timeout=900)
+        lines = []
+        for line in p.stdout.splitlines():
+            m = re.search(r'<<"SCHED", "(.*)">>\s*$', line)
+            if m:
+                lines.append(vlib.unescape_tla(m.group(1)))
+        if not lines:
+            log(p.stdout[-2000:])
+            raise vlib.ToolError("no schedules generated")
+        sfiles = []
+        nfollowed = 0
+        for i in range(0, len(lines), 150):
+            sp = os.path.join(wd, "sched_%d.ndjson" % i)
+            open(sp, "w").write("\n".join(lines[i:i + 150]) + "\n")
+            op = os.path.join(wd, "par_steer_%d.json" % i)
+            st = vlib.run_harness(["par-steer", "--sched", sp, "--out", op])
+            traces += st.get("runs", 0)
+            nfollowed += st.get("followed", 0)
+            hang = hang or st.get("hang", False)
+            sfiles.append(op)
+        log("[drive] %s/steer: %d schedules, %d followed to the last step" % (self.name, len(lines), nfollowed))
+        samples.append({"schedule_from_tlc": json.loads(lines[0])})
+        tv, n1 = self._validate("TraceParallel", files + sfiles, wd, "record+steer")
+        notes += n1
+        states += tv["states"]
+        for m in tv["mismatches"]:
+            runs = json.load(open(m["shard"]))
+            r = runs[m["run"] - 1]
+            mism.append({"props": m["props"], "why": m["why"], "kind": "parallel", "fmt": None, "op": None, "res_kind": r["result"],
+                         "case": {"par_cfg": r["cfg"], "result": r["result"], "obs": r["obs"], "steer": r.get("steer")}, "job": self.name})
+        # 3. the public entry points on real readers
+        afiles = []
+        for fmt in ("fasta", "fastq"):
+            for k, (faults, n) in enumerate([(False, q(tier, 400, 4000)), (True, q(tier, 300, 3000))]):
+                sp = os.path.join(wd, "api_%s_%d.json" % (fmt, k))
+                json.dump({"fmt": fmt, "n": n, "apis": ["parallel", "parallel_init", "read_parallel"], "faults": faults,
+                           "gen": {"maxrec": 9, "maxfield": 4, "damage": 25 if k == 0 else 40}}, open(sp, "w"))
+                op = os.path.join(wd, "api_%s_%d.ndjson" % (fmt, k))
+                st = vlib.run_harness(["par-api", "--suite", sp, "--out", op, "--seed", str(vlib.seed() + k)])
+                traces += st.get("runs", 0)
+                hang = hang or st.get("hang", False)
+                afiles.append(op)
+        tv2 = vlib.trace_validate("TraceParObs", afiles, wd, timeout=1500, xmx="2g")
+        states += tv2["states"]
+        for m in tv2["mismatches"]:
+            r = json.loads(vlib.shard_line(m["shard"], m["run"]))
+            small = {k: r[k] for k in ("api", "fmt", "input", "cap", "NW", "Q", "stop_after", "rinit_fail", "recinit_fail_at", "setinit_fail_at", "result")}
+            mism.append({"props": m["props"], "why": m["why"], "kind": "parapi", "fmt": r["fmt"], "op": r["api"], "res_kind": r["result"].get("k"),
+                         "case": {"par_api": small, "ncalls": len(r["calls"])}, "job": self.name})
+        try:
+            r0 = json.loads(vlib.shard_line(afiles[0], 1))
+            samples.append({"api_run": {k: r0[k] for k in ("api", "fmt", "input", "cap", "NW", "Q", "result")}, "consumer_calls": len(r0["calls"])})
+        except Exception:
+            pass
+        for n_ in notes:
+            log("NOTE drift: %d run(s) in %s not explained by any interleaving of Parallel.tla" % (len(n_["unexplained_runs"]), os.path.basename(n_["file"])))
+        return {"name": self.name, "kind": "tv", "mismatches": mism, "states": states, "transitions": states, "traces": traces, "events": traces,
+                "samples": samples, "wall": time.time() - t0, "drift": notes, "hang": hang}
+
+
+def par_jobs(prop, tier):
+    return [McJob("mcparallel", "MCParallel", "MCParallel_" + tier, ["C07", "C08", "C15", "C16"], workers=12, timeout=q(tier, 900, 7200),
+                  xmx="12g", inv_props=PAR_INV_PROPS),
+            ParJob("par", tier)]
+
+
+_old_build_jobs = build_jobs
+
+
+def build_jobs(prop, tier):
+    if prop in ("C07", "C08", "C15", "C16"):
+        return par_jobs(prop, tier)
+    return _old_build_jobs(prop, tier)
